@@ -90,6 +90,24 @@ func (u *Unit) stubFunc(st *State, instr ssa.Instruction, full string, args []Va
 		u.havocAll(ps, "reflect.Call")
 		u.havocAll(st, "reflect.Call")
 		return []callRes{{st: ps, panicked: true}, {st: st, val: u.fresh("callres", SSlice)}}, true
+	case "reflect.New", "reflect.Zero":
+		u.note("stub reflect.New/Zero/Value.Interface: reflect.New(t) is a non-nil *t, reflect.Zero(t) a zero t; Interface() boxes them with that dynamic type")
+		u.declFun("rvType", "(Int) Int")
+		t := lowerArg(0)
+		v := u.fresh("rvalue", SInt)
+		if full == "reflect.New" {
+			st.assume(Eq(app(SInt, "rvType", v), app(SInt, "ptrTo", t)))
+		} else {
+			st.assume(Eq(app(SInt, "rvType", v), t))
+		}
+		return one(st, v), true
+	case "(reflect.Value).Interface":
+		u.declFun("rvType", "(Int) Int")
+		v := lowerArg(0)
+		r := u.fresh("rviface", SIface)
+		// a zero Value of interface kind would box to nil; other kinds keep their type
+		st.assume(Implies(Not(app(SBool, "isIfaceType", app(SInt, "rvType", v))), Eq(app(SInt, "ity", r), app(SInt, "rvType", v))))
+		return one(st, r), true
 	case "encoding/json.Marshal":
 		u.note("stub encoding/json.Marshal: total deterministic function json(v) with error flag jsonOK(v); never panics")
 		v := lowerArg(0)
@@ -316,7 +334,11 @@ func (u *Unit) stubMethod(st *State, instr ssa.Instruction, name string, recv T,
 	case "reflect.Type.String":
 		return one(st, u.ghost("tname", SStr, recv)), true
 	case "reflect.Type.Kind":
-		return one(st, u.ghost("tkind", SInt, recv)), true
+		// reflect.Interface = 20, reflect.Pointer = 22
+		k := u.ghost("tkind", SInt, recv)
+		st.assume(Eq(Eq(k, IntLit(20)), app(SBool, "isIfaceType", recv)))
+		st.assume(Implies(Eq(k, IntLit(22)), Eq(app(SInt, "ptrTo", app(SInt, "elemOf", recv)), recv)))
+		return one(st, k), true
 	case "reflect.Type.NumIn":
 		return one(st, u.ghost("tnumin", SInt, recv)), true
 	case "error.Error":
